@@ -67,6 +67,9 @@ UpdKey(j) == "u" \o Str(j)
 CommitLeafKey(n) == "c" \o Str(n) \o "L"
 PathKey(n, x) == "c" \o Str(n) \o "n" \o Str(x)
 
+NoSecrets == 99998              \* epoch-secret id of a prior-epoch record that holds no real secrets
+NoLeaf == 99999                 \* "the committer is not a member" (external commit)
+CommitterOf(c) == IF c.external THEN NoLeaf ELSE c.byLeaf
 NoGroup == [st |-> "none"]
 HasGroup(p) == grp[p].st = "member"
 
@@ -160,6 +163,9 @@ ApplyAdds(mode, adds, i, acc) ==
 \*   [kind |-> "rpsk", ref, by, epoch]    resumption PSK of a past epoch: valid iff `who` still retains it
 \*   [kind |-> "gce",  ref, by, ver]      new group context extensions; at most one per commit
 \*   [kind |-> "reinit", ref, by]         re-initialisation; must be the only proposal
+\*   [kind |-> "extinit", ref, by]        external initialisation: only in an external commit (new-member sender),
+\*                                        which carries exactly one, by value, plus at most one removal of the joiner's
+\*                                        own former leaf and PSKs (filtering_common.rs apply_proposals_from_new_member)
 \*   [kind |-> "custom", ref, by, ver]    application-defined proposal of a type every member supports and that the
 \*                                        rules do not list as path-requiring: always valid, no effect on the group
 HoldsPsk(who, id) == pskStore[who][id] # "none"
@@ -218,7 +224,7 @@ ApplyProposals(mode, who, tree, committer, items0) ==
         pk == FilterPsks(mode, who, SelectSeq(remNotCommitter, LAMBDA it : it.kind \in {"psk", "rpsk"}), 1, [kept |-> <<>>, err |-> ""])
         gc == FilterGces(mode, OfKind(remNotCommitter, "gce"), 1, [kept |-> <<>>, err |-> ""])
         \* what is left of the bundle after the PSK and GCE rules, in bundle order per type
-        afterRules == SelectSeq(remNotCommitter, LAMBDA it : it.kind \in {"add", "rem", "upd", "reinit"}) \o pk.kept \o gc.kept
+        afterRules == SelectSeq(remNotCommitter, LAMBDA it : it.kind \in {"add", "rem", "upd", "reinit", "extinit"}) \o pk.kept \o gc.kept
                       \o OfKind(remNotCommitter, "custom")
         ri == FilterReinit(mode, afterRules)
         its == ri.items
@@ -228,7 +234,7 @@ ApplyProposals(mode, who, tree, committer, items0) ==
         r3 == ApplyAdds(mode, OfKind(its, "add"), 1, [tree |-> r2.tree, kept |-> <<>>, err |-> "", added |-> <<>>, start |-> 0])
         \* bundle order: adds, removes, updates, psks, gce, reinit
         applied == r3.kept \o r1.kept \o r2.kept \o SelectSeq(its, LAMBDA it : it.kind \in {"psk", "rpsk"})
-                   \o OfKind(its, "gce") \o OfKind(its, "reinit") \o OfKind(its, "custom")
+                   \o OfKind(its, "gce") \o OfKind(its, "reinit") \o OfKind(its, "extinit") \o OfKind(its, "custom")
     IN IF bad1 THEN Res(FALSE, "rule:update-by-committer", tree, <<>>, <<>>, {}, {})
        ELSE IF bad2 THEN Res(FALSE, "rule:remove-committer", tree, <<>>, <<>>, {}, {})
        ELSE IF pk.err # "" THEN Res(FALSE, pk.err, tree, <<>>, <<>>, {}, {})
@@ -554,7 +560,7 @@ Commit(p, byval, dt) ==
                    psks |-> LET ps == PsksOf(ar.applied) IN
                             [i \in 1..Len(ps) |-> IF ps[i].kind = "psk" THEN [kind |-> "psk", id |-> ps[i].id, val |-> pskStore[p][ps[i].id]]
                                                   ELSE [kind |-> "rpsk", epoch |-> ps[i].epoch]],
-                   newExt |-> NewExt(ar.applied, g.ext), reinit |-> HasReinit(ar.applied)]
+                   newExt |-> NewExt(ar.applied, g.ext), reinit |-> HasReinit(ar.applied), external |-> FALSE]
          IN /\ commits' = Append(commits, c)
             /\ grp' = [grp EXCEPT ![p].pend = IF dt THEN @ ELSE n, ![p].hsSend = IF opt.enc THEN @ + 1 ELSE @]
             /\ det' = IF dt THEN [det EXCEPT ![p] = @ \cup {n}] ELSE det
@@ -569,6 +575,65 @@ Commit(p, byval, dt) ==
                        ext |-> NewExt(ar.applied, g.ext), reinit |-> HasReinit(ar.applied),
                        newTree |-> [i \in 1..Len(tree1) |-> ProjNode(tree1[i])]])
     /\ UNCHANGED <<zomb, kps, props, winner, opt, repo, store, apps>>
+
+\* External commit (external_commit.rs ExternalCommitBuilder::build): party q, holding no usable state, joins
+\* through the GroupInfo and tree published by member p; with resync it removes its own former leaf.  The
+\* joiner holds the new epoch at once; the delivery service accepts the commit only if the epoch is still open.
+ExternalCommit(q, p, resync) ==
+    LET g == grp[p]
+        n == Len(commits) + 1
+        inTree == q \in Members(g.tree)
+        oldLeaf == IF inTree THEN LeafOf(g.tree, q) ELSE 0
+        items == <<[kind |-> "extinit", ref |-> 0, by |-> NoLeaf]>>
+                 \o (IF resync THEN <<[kind |-> "rem", ref |-> 0, by |-> NoLeaf, target |-> oldLeaf]>> ELSE <<>>)
+        ar == ApplyProposals("recv", q, g.tree, NoLeaf, items)
+        l == NextEmptyLeaf(ar.tree, 0)
+        newLeaf == MkLeaf(CommitLeafKey(n), q, 0, "commit")
+        treeA == AddLeafAt(ar.tree, l, newLeaf)
+        pathKeys == EncapKeys(n, treeA, l)
+        tree1 == ApplyPath(treeA, l, newLeaf, pathKeys)
+        recips == [x \in DOMAIN pathKeys |->
+                     LET rs == Recipients(tree1, l, x, {}) IN [i \in 1..Len(rs) |-> Node(tree1, rs[i]).k]]
+        newPriv == MergeFn(pathKeys, (2 * l :> CommitLeafKey(n)))
+        args == [from |-> p, resync |-> resync, oldLeaf |-> oldLeaf]
+        c == [by |-> q, byLeaf |-> l, baseKs |-> g.ks, baseEpoch |-> g.epoch,
+              items |-> ar.applied, path |-> TRUE, pathKeys |-> pathKeys, recips |-> recips,
+              added |-> <<>>, removed |-> ar.removed, newTree |-> tree1, newPriv |-> newPriv,
+              unused |-> {}, gen |-> 0, psks |-> <<>>, newExt |-> g.ext, reinit |-> FALSE, external |-> TRUE]
+    IN
+    /\ "extcommit" \in Features /\ HasGroup(p) /\ q # p /\ ~g.frozen
+    /\ Len(commits) < MaxCommits /\ g.epoch < MaxEpoch
+    /\ (resync => inTree)
+    \* q holds no group, or (resync) a stale one that it gives up
+    /\ (HasGroup(q) => resync)
+    \* delivery service: the epoch is still open and p's state is on the chosen history
+    /\ winner[g.epoch] = 0 /\ (IF g.epoch = 0 THEN TRUE ELSE winner[g.epoch - 1] = g.ks)
+    /\ IF inTree /\ ~resync
+       THEN \* the joiner's identity is already in the tree: its new leaf is a duplicate
+            /\ UNCHANGED <<grp, commits, winner, repo>>
+            /\ Record("ExternalCommit", q, args, "err:rule:add-duplicate", [x |-> 0])
+       ELSE IF "F14" \in Deviations /\ store[q].epochs # <<>> /\ store[q].epochs[Len(store[q].epochs)].epoch + 1 # g.epoch
+       THEN \* named deviation F14: the joiner's storage still holds epochs of a former membership; queuing the
+            \* epoch it joins from does not continue them and the builder fails
+            /\ UNCHANGED <<grp, commits, winner, repo>>
+            /\ Record("ExternalCommit", q, args, "err:epoch:F14", [x |-> 0])
+       ELSE /\ commits' = Append(commits, c)
+            /\ winner' = [winner EXCEPT ![g.epoch] = n]
+            /\ grp' = [grp EXCEPT ![q] = [st |-> "member", epoch |-> g.epoch + 1, ks |-> n, leaf |-> l,
+                                          tree |-> tree1, priv |-> newPriv,
+                                          cache |-> {}, pend |-> 0, pendUpd |-> {}, seenC |-> {}, sendGen |-> 0, recv |-> <<>>, hsSend |-> 0, hsRecv |-> <<>>,
+                                          ext |-> g.ext, frozen |-> FALSE]]
+            \* the builder first constructs a group object for the epoch it joins from (with empty epoch secrets)
+            \* and then applies its own commit to it like any member: the epoch that is "left" is queued as a
+            \* prior epoch although the joiner never held its secrets (the record cannot decrypt anything)
+            /\ repo' = [repo EXCEPT ![q] = [ins |-> <<[ks |-> NoSecrets, epoch |-> g.epoch, leaf |-> 0, recv |-> <<>>,
+                                                       who |-> [x \in OccupiedLeaves(g.tree) |-> Node(g.tree, 2 * x).who]]>>,
+                                            upd |-> <<>>]]
+            /\ Record("ExternalCommit", q, args, "ok",
+                      [commit |-> n, leaf |-> l,
+                       recips |-> LET xs == SetToSortedSeq(DOMAIN recips) IN [i \in 1..Len(xs) |-> [node |-> xs[i], keys |-> recips[xs[i]]]],
+                       newTree |-> [i \in 1..Len(tree1) |-> ProjNode(tree1[i])]])
+    /\ UNCHANGED <<zomb, kps, props, opt, store, apps, det>>
 
 ClearPending(p) ==
     /\ HasGroup(p) /\ grp[p].pend # 0
@@ -616,7 +681,7 @@ DeliverCommit(q, n) ==
         c == commits[n]
         args == [commit |-> n]
         refs == {c.items[i].ref : i \in {i \in 1..Len(c.items) : IsByRef(c.items[i])}}
-        ar == ApplyProposals("recv", q, g.tree, c.byLeaf, c.items)
+        ar == ApplyProposals("recv", q, g.tree, CommitterOf(c), c.items)
         addedLeaves == {a[2] : a \in SeqSet(ar.added)}
     IN
     /\ n \in 1..Len(commits) /\ HasGroup(q)
@@ -624,7 +689,7 @@ DeliverCommit(q, n) ==
     /\ IF c.baseEpoch # g.epoch \/ c.baseKs # g.ks
        THEN /\ UNCHANGED <<grp, zomb>>
             /\ Record("DeliverCommit", q, args, "err:epoch", [x |-> 0])
-       ELSE IF opt.enc /\ c.by # q /\ RatchetVerdict(RatchetOf(g.hsRecv, c.byLeaf), c.gen) # "ok"
+       ELSE IF opt.enc /\ ~c.external /\ c.by # q /\ RatchetVerdict(RatchetOf(g.hsRecv, c.byLeaf), c.gen) # "ok"
        THEN \* encrypted commit whose handshake key this receiver no longer has (already used, or too far ahead)
             /\ UNCHANGED <<grp, zomb>>
             /\ Record("DeliverCommit", q, args, RatchetVerdict(RatchetOf(g.hsRecv, c.byLeaf), c.gen), [x |-> 0])
@@ -659,20 +724,24 @@ DeliverCommit(q, n) ==
             THEN /\ UNCHANGED <<grp, zomb>>
                  /\ Record("DeliverCommit", q, args, "err:replay", [x |-> 0])
             ELSE /\ grp' = [grp EXCEPT ![q].seenC = @ \cup {n},
-                                       ![q].hsRecv = IF opt.enc THEN (c.byLeaf :> RatchetAfter(RatchetOf(g.hsRecv, c.byLeaf), c.gen)) @@ @ ELSE @]
+                                       ![q].hsRecv = IF opt.enc /\ ~c.external THEN (c.byLeaf :> RatchetAfter(RatchetOf(g.hsRecv, c.byLeaf), c.gen)) @@ @ ELSE @]
                  /\ UNCHANGED zomb
                  /\ Record("DeliverCommit", q, args, "ok:removed", [x |-> 0])
        ELSE
          LET priv0 == ProvisionalPriv(g, ar.tree, ar.applied)
-             old == Node(ar.tree, 2 * c.byLeaf)
+             \* an external commit: the joiner's leaf is added like any new leaf (leftmost blank, unmerged at its
+             \* ancestors) before its update path is installed
+             cl == IF c.external THEN NextEmptyLeaf(ar.tree, 0) ELSE c.byLeaf
+             old == IF c.external THEN MkLeaf(CommitLeafKey(n), c.by, 0, "commit") ELSE Node(ar.tree, 2 * c.byLeaf)
              newLeaf == MkLeaf(CommitLeafKey(n), old.who, old.cv, "commit")
-             tree1 == IF c.path THEN ApplyPath(ar.tree, c.byLeaf, newLeaf, c.pathKeys) ELSE ar.tree
-             dec == IF c.path THEN Decap(tree1, c.byLeaf, g.leaf, priv0, c.recips, addedLeaves) ELSE [ok |-> TRUE]
-             learned == IF c.path THEN LearnedKeys(tree1, c.byLeaf, g.leaf, c.pathKeys) ELSE <<>>
+             treeA == IF c.external THEN AddLeafAt(ar.tree, cl, newLeaf) ELSE ar.tree
+             tree1 == IF c.path THEN ApplyPath(treeA, cl, newLeaf, c.pathKeys) ELSE ar.tree
+             dec == IF c.path THEN Decap(tree1, cl, g.leaf, priv0, c.recips, addedLeaves) ELSE [ok |-> TRUE]
+             learned == IF c.path THEN LearnedKeys(tree1, cl, g.leaf, c.pathKeys) ELSE <<>>
              \* keys at or above the LCA are replaced (None where the path has no node)
              keep == IF c.path
                      THEN LET n0 == LeafCount(tree1)
-                              lvl == Level(CommonAncestor(c.byLeaf, g.leaf, n0), n0)
+                              lvl == Level(CommonAncestor(cl, g.leaf, n0), n0)
                               dpr == DirectPathOf(tree1, g.leaf)
                           IN {x \in DOMAIN priv0 : ~\E i \in lvl..Len(dpr) : dpr[i] = x}
                      ELSE DOMAIN priv0
@@ -910,10 +979,12 @@ ObsDeliverProposal(j) ==
 ObsDeliverCommit(n) ==
     LET c == commits[n]
         refs == {c.items[i].ref : i \in {i \in 1..Len(c.items) : IsByRef(c.items[i])}}
-        ar == ApplyProposals("obs", Creator, obs.tree, c.byLeaf, c.items)
-        old == Node(ar.tree, 2 * c.byLeaf)
+        ar == ApplyProposals("obs", Creator, obs.tree, CommitterOf(c), c.items)
+        cl == IF c.external THEN NextEmptyLeaf(ar.tree, 0) ELSE c.byLeaf
+        old == IF c.external THEN MkLeaf(CommitLeafKey(n), c.by, 0, "commit") ELSE Node(ar.tree, 2 * c.byLeaf)
         newLeaf == MkLeaf(CommitLeafKey(n), old.who, old.cv, "commit")
-        tree1 == IF c.path THEN ApplyPath(ar.tree, c.byLeaf, newLeaf, c.pathKeys) ELSE ar.tree
+        treeA == IF c.external THEN AddLeafAt(ar.tree, cl, newLeaf) ELSE ar.tree
+        tree1 == IF c.path THEN ApplyPath(treeA, cl, newLeaf, c.pathKeys) ELSE ar.tree
         args == [commit |-> n]
     IN
     /\ "observer" \in Features /\ obs.st = "on" /\ n \in 1..Len(commits)
@@ -959,6 +1030,7 @@ MemberNext ==
     \/ \E q \in Parties : \E j \in 1..Len(props) : DeliverProposal(q, j)
     \/ \E p \in Parties : HasGroup(p) /\ \E bv \in ByValueSeqs(grp[p]) : \E dt \in BOOLEAN : Commit(p, bv, dt)
     \/ \E p \in Parties : ClearPending(p)
+    \/ \E q, p \in Parties : \E rs \in BOOLEAN : ExternalCommit(q, p, rs)
     \/ \E n \in 1..Len(commits) : DsChoose(n)
     \/ \E p \in Parties : ApplyPending(p)
     \/ \E q \in Parties : \E n \in 1..Len(commits) : DeliverCommit(q, n)
@@ -1179,8 +1251,10 @@ AtMostOnce ==
 StepsByOne ==
     [][\A p \in Parties :
         (grp[p].st = "member" /\ grp'[p].st = "member" /\ grp'[p].ks # grp[p].ks) =>
-            \/ (grp'[p].epoch = grp[p].epoch + 1 /\ commits[grp'[p].ks].baseKs = grp[p].ks)
-            \/ grp'[p] = store[p].snap]_vars
+            \/ (grp'[p].epoch = grp[p].epoch + 1 /\ commits'[grp'[p].ks].baseKs = grp[p].ks)
+            \/ grp'[p] = store[p].snap
+            \* resynchronisation: the member gives up its state and re-enters by its own external commit
+            \/ (commits'[grp'[p].ks].external /\ commits'[grp'[p].ks].by = p)]_vars
 
 \* C10: whatever the sender's filter keeps is exactly what the receiver's stricter mode accepts: every
 \* member of the commit's base epoch that has the referenced proposals (and the PSKs) validates the
@@ -1190,7 +1264,7 @@ SendImpliesRecv ==
         LET c == commits[n]
             refs == {c.items[i].ref : i \in {i \in 1..Len(c.items) : IsByRef(c.items[i])}}
         IN (HasGroup(q) /\ grp[q].ks = c.baseKs /\ q # c.by /\ refs \subseteq grp[q].cache) =>
-              LET ar == ApplyProposals("recv", q, grp[q].tree, c.byLeaf, c.items) IN
+              LET ar == ApplyProposals("recv", q, grp[q].tree, CommitterOf(c), c.items) IN
               \/ (~ar.ok /\ ar.err = "rule:psk-unknown")      \* a member that does not hold a PSK must reject
               \/ (ar.ok /\ ar.applied = c.items /\ ar.added = c.added /\ ar.removed = c.removed)
 
@@ -1198,8 +1272,11 @@ SendImpliesRecv ==
 CommittedListsLegal ==
     \A n \in 1..Len(commits) :
         LET c == commits[n]  its == c.items IN
-        /\ ~\E i \in 1..Len(its) : its[i].kind = "upd" /\ its[i].by = c.byLeaf
-        /\ ~\E i \in 1..Len(its) : its[i].kind = "rem" /\ its[i].target = c.byLeaf
+        /\ ~\E i \in 1..Len(its) : its[i].kind = "upd" /\ its[i].by = CommitterOf(c)
+        /\ ~\E i \in 1..Len(its) : its[i].kind = "rem" /\ its[i].target = CommitterOf(c)
+        \* an external commit: exactly one external init, at most one removal (of the joiner's former leaf), by value
+        /\ (c.external <=> Len(OfKind(its, "extinit")) = 1) /\ Len(OfKind(its, "extinit")) <= 1
+        /\ (c.external => (Len(OfKind(its, "rem")) <= 1 /\ \A i \in 1..Len(its) : ~IsByRef(its[i]) /\ its[i].kind \in {"extinit", "rem", "psk", "rpsk"}))
         /\ Len(OfKind(its, "gce")) <= 1
         /\ (HasReinit(its) => Len(its) = 1)
         /\ \A i, j \in 1..Len(its) : (i # j /\ its[i].kind \in {"upd", "rem"} /\ its[j].kind \in {"upd", "rem"}) =>
